@@ -316,6 +316,22 @@ def add_dataflow(body, costs, room, writers):
     return dataflow(body, init_user=("none", False, False), node_fn=node_fn, edge_fn=edge_fn)
 
 
+def check_room_left(rep, fl, rule="R01.6"):
+    """room_left(cost) is max_cost - used - cost, negative amounts included: its sign decides between the fast path
+    and the eviction loop (C01: the admission re-establishes used <= max_cost; C07: "when there is room")."""
+    facts = fl.facts
+    rl = facts.body(SLFU + "::room_left")
+    re_ = return_expr(rl)
+    want = {("call", SLFU + "::get_max_cost", (V("self"),)): 1, norm(F(V("self"), "used")): -1, V("cost"): -1}
+    got = lin(re_) if re_ is not None else None
+    rep.check(got is not None and lin_key(got) == lin_key(want), rule, fl, rl, "return",
+              "room_left(cost) == get_max_cost() - used - cost", "room_left returns %s, expected max_cost - used - cost" % (lin_show(got) if got else "?"))
+    gm = facts.body(SLFU + "::get_max_cost")
+    ge = norm(return_expr(gm))
+    okg = is_call(ge, "load") and norm(ge[2][0]) == norm(F(V("self"), "max_cost"))
+    rep.check(okg, rule, fl, gm, "return", "get_max_cost() == load(self.max_cost)", "get_max_cost returns %s" % show(ge))
+
+
 def check_C01(rep, fl):
     facts = fl.facts
     # ---- R01.1 writers -----------------------------------------------------------
@@ -398,17 +414,12 @@ def check_C01(rep, fl):
         rep.check(ok4, "R01.4", fl, body, "update(key, cost)", "dominated by !(cost > max_cost)",
                   "update reachable without the oversize test (path: %s)" % (show_state(bad4) if bad4 else ""), loc=t["sp"])
 
-    # ---- R01.6 room_left value -----------------------------------------------------
-    rl = facts.body(SLFU + "::room_left")
-    re_ = return_expr(rl)
-    want = {("call", SLFU + "::get_max_cost", (V("self"),)): 1, norm(F(V("self"), "used")): -1, V("cost"): -1}
-    got = lin(re_) if re_ is not None else None
-    rep.check(got is not None and lin_key(got) == lin_key(want), "R01.6", fl, rl, "return",
-              "room_left(cost) == get_max_cost() - used - cost", "room_left returns %s, expected max_cost - used - cost" % (lin_show(got) if got else "?"))
-    gm = facts.body(SLFU + "::get_max_cost")
-    ge = norm(return_expr(gm))
-    okg = is_call(ge, "load") and norm(ge[2][0]) == norm(F(V("self"), "max_cost"))
-    rep.check(okg, "R01.6", fl, gm, "return", "get_max_cost() == load(self.max_cost)", "get_max_cost returns %s" % show(ge))
+    check_room_left(rep, fl)
+    # R01.9: the charge the policy released for a victim is matched by the entry leaving the store - otherwise the
+    # resident entries add up to more than max_cost while `used` looks fine
+    import props_life
+    props_life.check_handle_item_pairing(rep, fl, rule="R01.9", collisions=False,
+                                         only_sites=("victim => try_remove(victim.key, 0)", "victims inspected on every path"))
 
     # ---- R01.7 capacity plumbing ---------------------------------------------------
     um = facts.body(SLFU + "::update_max_cost")
@@ -968,6 +979,8 @@ def check_fill_sample(rep, fl, fs):
 
 def check_C07_all(rep, fl):
     check_C07(rep, fl)
+    # "when there is room" / "only while room is still lacking": room is max_cost - used - cost, with its sign
+    check_room_left(rep, fl)
     # R07.7: what the policy decides is carried out - every victim leaves the store (and goes to on_evict), whether
     # or not the newcomer was admitted in the end; a refused newcomer goes to on_reject
     import props_life
